@@ -12,7 +12,7 @@ import random
 import vlib
 
 LEVEL = "model_checking"
-SQF = ["setg1", "setg2", "readg", "readcfg", "ppfail", "parsefail", "rterr", "rterr_spawned", "endless", "sleeper", "yielder", "napper", "napper", "empty", "evalerr"]
+SQF = ["setg1", "setg2", "readg", "readcfg", "ppfail", "parsefail", "rterr", "rterr_spawned", "endless", "sleeper", "yielder", "napper", "napper", "empty", "evalerr", "verbose"]
 CFG = ["cfgok", "cfgparsefail", "cfgppfail", "cfgevalerr"]
 
 
